@@ -43,7 +43,27 @@ def code_pool():
     zeros = [item("PUSH", "0"), item("PUSH", "0"), item("ADD"), item("PUSH", "00"), item("POP"), item("STOP")]
     splits = [item("PUSH", "20"), item("PUSH", "0"), item("LOG0"), item("GAS"), item("PUSH", "1"), item("SSTORE"),
               item("PUSH", "0"), item("PUSH", "0"), item("PUSH", "0"), item("CALLDATACOPY"), item("SELFDESTRUCT")]
-    return {"plain": plain, "pseudo": pseudo, "nosource": nosource, "zeros": zeros, "splits": splits, "empty": []}
+    # every item kind x every subset of the optional fields {source, jumpType, modifierDepth} (the reader is generic:
+    # it keeps whatever optional field an item has, on whatever item)
+    fields = []
+    kinds = [("PUSH", "80"), ("PUSH", "0"), ("ADD", None), ("PUSH [tag]", "9"), ("JUMP", None), ("tag", "9"),
+             ("JUMPDEST", None), ("PUSHLIB", "__$abc123$__"), ("PUSH data", "A1B2C3"), ("PUSHSIZE", None),
+             ("ASSIGNIMMUTABLE", "deadbeef"), ("JUMPI", None), ("POP", None)]
+    for name, value in kinds:
+        for src, jt, md in itertools.product((True, False), (None, "[in]", "[out]"), (None, 1, 3)):
+            it = {"begin": 11, "end": 12, "name": name}
+            if src:
+                it["source"] = 2
+            if value is not None:
+                it["value"] = value
+            if jt is not None:
+                it["jumpType"] = jt
+            if md is not None:
+                it["modifierDepth"] = md
+            fields.append(it)
+    fields.append(item("STOP"))
+    return {"plain": plain, "pseudo": pseudo, "nosource": nosource, "zeros": zeros, "splits": splits, "empty": [],
+            "fields": fields}
 
 
 def gen_docs(level=1):
